@@ -32,17 +32,28 @@ def call(name, params, rng):
 def outcomes(name, params, limit, max_dev=2):
     """[(choices, result)], info -- every random outcome if there are <= limit, else the largest deviation bound
     d <= max_dev whose enumeration fits (d=0 always fits)"""
+    from .choice import ScriptDivergence
     run = lambda rng: call(name, params, rng)  # noqa: E731
     out = []
-    for choices, res, _ in explore(run, max_runs=limit + 1):
-        out.append((choices, res))
+    try:
+        for choices, res, _ in explore(run, max_runs=limit + 1):
+            out.append((choices, res))
+    except ScriptDivergence:
+        # the function did not consume the same script the same way twice: it is not a function of (parameters, draws).
+        # Reported as an outcome so that the check can turn it into a verdict (with the process history as replay).
+        return out + [([], ('EXC', 'HistoryDependence', 'the same scripted draws were consumed differently by a repeated call of '
+                            'the reset function (its random picks depend on earlier calls in the process)'))], {'complete': False, 'dev_bound': 0, 'outcomes': len(out) + 1}
     if len(out) <= limit:
         return out, {'complete': True, 'outcomes': len(out)}
     best, best_d = None, None
     for d in range(0, max_dev + 1):
         cur = []
-        for choices, res, _ in explore(run, dev_bound=d, max_runs=limit + 1):
-            cur.append((choices, res))
+        try:
+            for choices, res, _ in explore(run, dev_bound=d, max_runs=limit + 1):
+                cur.append((choices, res))
+        except ScriptDivergence:
+            return cur + [([], ('EXC', 'HistoryDependence', 'the same scripted draws were consumed differently by a repeated call of '
+                                'the reset function (its random picks depend on earlier calls in the process)'))], {'complete': False, 'dev_bound': d, 'outcomes': len(cur) + 1}
         if len(cur) > limit:
             break
         best, best_d = cur, d
